@@ -179,71 +179,78 @@ def gen_query(rng, rows):
     return {"text": txt, "select": sel, "count": count, "groups": groups, "orders": orders if orders else ["type", "priority", "modify", "create"], "where": where}
 
 
-def body(ctx: C.Ctx, proof: C.ProofStatus) -> C.Result:
+DRIVER_OK = True
+CORPUS_ITEMS = []
+N_Q = 30
+
+
+def one_index(ctx, res, rng, job):
     from freezegun import freeze_time
     from zorg.service import swog
     from zorg.service.compiler import build_zorg_query
     from zorg.storage.sql import SQLSession
 
-    res = C.Result()
-    rng = ctx.rng
-    n_idx = ctx.scale(25, 600)
-    n_q = 30
+    i = job - len(CORPUS_ITEMS)   # the pinned corpus runs first (negative i)
+    n_q = N_Q
     cfg = Z.write_config(ctx.tmp / "cfg.yml")
     zdir = ctx.tmp / "z"
-    corpus = []
-    cdir = C.CORPUS / PROP
-    if cdir.exists():
-        corpus = [C.json.loads(f.read_text()) for f in sorted(cdir.glob("*.json"))]
-    for i in range(-len(corpus), n_idx):
-        if zdir.exists():
-            shutil.rmtree(zdir)
-        zdir.mkdir(parents=True)
-        files = corpus[i + len(corpus)]["files"] if i < 0 else G.gen_dir(rng, npages=(2, 4), with_zid=0.7, date_prob=0.35)
-        # pages with more than 9 / 99 lines so that line numbers have different digit counts
-        G.write_dir(zdir, files)
-        Z.clear_engine_cache()
+    if zdir.exists():
+        shutil.rmtree(zdir)
+    zdir.mkdir(parents=True)
+    files = CORPUS_ITEMS[i + len(CORPUS_ITEMS)]["files"] if i < 0 else G.gen_dir(rng, npages=(2, 4), with_zid=0.7, date_prob=0.35)
+    # pages with more than 9 / 99 lines so that line numbers have different digit counts
+    G.write_dir(zdir, files)
+    Z.clear_engine_cache()
+    with freeze_time(dt.datetime(*TODAY, 12, 0)):
+        rc, out, err = Z.zorg_main(zdir, "db", "create", config=cfg)
+    if rc != 0:
+        res.notes.append("db create failed on a generated directory")
+        return None
+    url = f"sqlite:///{zdir}/.zorg/zorg.db"
+    queries = CORPUS_ITEMS[i + len(CORPUS_ITEMS)]["queries"] if i < 0 else [gen_query(rng, None) for _ in range(n_q)]
+    reqs, metas = [], []
+    for q in queries:
         with freeze_time(dt.datetime(*TODAY, 12, 0)):
-            rc, out, err = Z.zorg_main(zdir, "db", "create", config=cfg)
-        if rc != 0:
-            res.notes.append("db create failed on a generated directory")
-            continue
-        url = f"sqlite:///{zdir}/.zorg/zorg.db"
-        queries = corpus[i + len(corpus)]["queries"] if i < 0 else [gen_query(rng, None) for _ in range(n_q)]
-        reqs, metas = [], []
-        for q in queries:
-            with freeze_time(dt.datetime(*TODAY, 12, 0)):
-                try:
-                    with SQLSession(zdir, url) as session:
-                        notes = session.repo.get_notes_by_query(build_zorg_query(q["text"]).where)
-                        xs = [xnote(n) for n in notes]
-                    text = swog.execute(zdir, url, q["text"])
-                except Exception as e:  # noqa
-                    res.failures.append(C.Failure(f"query {q['text']!r} raised {type(e).__name__}: {e}", {"files": files, "query": q}))
-                    continue
-            res.evaluations += 1
-            res.count(f"groups={len(q['groups'])}")
-            res.count("select=" + ("count" if q["count"] else q["select"].split(":")[0]))
-            if len(xs) > 1:
-                res.nontrivial.add((i, q["text"]))
-            msg = oracle(q, xs, text)
-            if msg:
-                res.failures.append(C.Failure(f"{q['text']!r}: {msg}", {"files": files, "query": q, "output": text[:3000],
-                                                                          "matches_string_line_order": text == spec_text(q, xs, none_as_string=True)}))
-            reqs.append({"op": "exec.run", "query": q["text"], "today": list(TODAY), "notes": xs})
-            metas.append((q, text, files))
-            if len(res.samples) < 3 and len(q["groups"]) >= 2 and len(xs) > 3:
-                res.sample({"query": q["text"], "output_head": text[:400]})
-        if proof.driver_ok and reqs:
-            ms = C.model_batch(reqs)
-            for (q, text, files), m in zip(metas, ms):
-                if "err" in m:
-                    res.unsupported += 1
-                    continue
-                if m["text"] != text:
-                    a, b = m["text"], text
-                    k = next((j for j in range(min(len(a), len(b))) if a[j] != b[j]), min(len(a), len(b)))
-                    res.disagreements.append(C.Failure(f"{q['text']!r}: model output differs from swog.execute at char {k}: model {a[max(0,k-60):k+80]!r} impl {b[max(0,k-60):k+80]!r}", {"files": files, "query": q}, "correspondence"))
+            try:
+                with SQLSession(zdir, url) as session:
+                    notes = session.repo.get_notes_by_query(build_zorg_query(q["text"]).where)
+                    xs = [xnote(n) for n in notes]
+                text = swog.execute(zdir, url, q["text"])
+            except Exception as e:  # noqa
+                res.failures.append(C.Failure(f"query {q['text']!r} raised {type(e).__name__}: {e}", {"files": files, "query": q}))
+                continue
+        res.evaluations += 1
+        res.count(f"groups={len(q['groups'])}")
+        res.count("select=" + ("count" if q["count"] else q["select"].split(":")[0]))
+        if len(xs) > 1:
+            res.nontrivial.add((i, q["text"]))
+        msg = oracle(q, xs, text)
+        if msg:
+            res.failures.append(C.Failure(f"{q['text']!r}: {msg}", {"files": files, "query": q, "output": text[:3000],
+                                                                      "matches_string_line_order": text == spec_text(q, xs, none_as_string=True)}))
+        reqs.append({"op": "exec.run", "query": q["text"], "today": list(TODAY), "notes": xs})
+        metas.append((q, text, files))
+        if len(res.samples) < 3 and len(q["groups"]) >= 2 and len(xs) > 3:
+            res.sample({"query": q["text"], "output_head": text[:400]})
+    if DRIVER_OK and reqs:
+        ms = C.model_batch(reqs)
+        for (q, text, files), m in zip(metas, ms):
+            if "err" in m:
+                res.unsupported += 1
+                continue
+            if m["text"] != text:
+                a, b = m["text"], text
+                k = next((j for j in range(min(len(a), len(b))) if a[j] != b[j]), min(len(a), len(b)))
+                res.disagreements.append(C.Failure(f"{q['text']!r}: model output differs from swog.execute at char {k}: model {a[max(0,k-60):k+80]!r} impl {b[max(0,k-60):k+80]!r}", {"files": files, "query": q}, "correspondence"))
+    return None
+
+
+def body(ctx: C.Ctx, proof: C.ProofStatus) -> C.Result:
+    global DRIVER_OK, CORPUS_ITEMS
+    DRIVER_OK = proof.driver_ok
+    cdir = C.CORPUS / PROP
+    CORPUS_ITEMS = [C.json.loads(f.read_text()) for f in sorted(cdir.glob("*.json"))] if cdir.exists() else []
+    res, _ = C.parallel_jobs(ctx, len(CORPUS_ITEMS) + ctx.scale(48, 480), one_index)
     return res
 
 
